@@ -19,8 +19,9 @@ def Declared (s : St) (k : Key) : Prop := ∃ r rc, s.recs r = some rc ∧ k ∈
 
 structure Inv (parent : Key → Rd) (s : St) : Prop where
   decl : ∀ k, s.cache k ≠ none ↔ Declared s k
-  qr : ∀ k, s.cache k ≠ none ↔ (k ∈ s.queue ∨ k ∈ s.requested)
-  nodup : (s.queue ++ s.requested).Nodup
+  qr1 : ∀ k, (k ∈ s.sending ∨ k ∈ s.queue ∨ k ∈ s.requested) → s.cache k ≠ none
+  qr2 : s.err = none → ∀ k, s.cache k ≠ none → (k ∈ s.sending ∨ k ∈ s.queue ∨ k ∈ s.requested)
+  nodup : (s.sending ++ s.queue ++ s.requested).Nodup
   vals : ∀ k d, s.cache k = some (some d) → parent k = rdOf d
   recok : ∀ r rc, s.recs r = some rc →
     RecOk rc ∧ rc.blockers = (cnt r s.blocked : Int) ∧
@@ -34,7 +35,7 @@ theorem cnt_append (r : Nat) (l : List (Key × Nat)) (e : Key × Nat) :
   unfold cnt
   by_cases h : e.2 = r <;> simp [List.filter_append, List.filter_cons, h]
 
-theorem inv_init (parent : Key → Rd) (c : Nat) : Inv parent (init c) := by
+theorem inv_init (parent : Key → Rd) (c cap : Nat) : Inv parent (init c cap) := by
   constructor <;> simp [init, Declared]
 
 /-- one loop iteration of `Fetch` on the fresh (not yet closed) record `r` -/
@@ -96,22 +97,35 @@ theorem inv_fetchKey {parent : Key → Rd} {s : St} {r : Nat} (k : Key)
   split
   next hc =>
     -- new entry
-    have hknot : k ∉ s.queue ∧ k ∉ s.requested := by
-      have := (h.qr k); simp [hc] at this; exact this
-    refine ⟨?_, ?_, ?_, ?_, ?_, ?_, ?_, ?_⟩
+    have hknot : k ∉ s.sending ∧ k ∉ s.queue ∧ k ∉ s.requested := by
+      refine ⟨fun hx => h.qr1 k (Or.inl hx) hc, fun hx => h.qr1 k (Or.inr (Or.inl hx)) hc,
+        fun hx => h.qr1 k (Or.inr (Or.inr hx)) hc⟩
+    refine ⟨?_, ?_, ?_, ?_, ?_, ?_, ?_, ?_, ?_⟩
     · intro k'
       show upd s.cache k (some none) k' ≠ none ↔ _
       unfold Declared; simp only []
       rw [hdeclStep true k', ← h.decl k']
       unfold upd; by_cases e : k' = k <;> simp [e]
-    · intro k'
-      show upd s.cache k (some none) k' ≠ none ↔ _
-      have := h.qr k'
-      unfold upd; by_cases e : k' = k <;> simp [e]
-      simpa [e] using this
+    · intro k' hk'
+      show upd s.cache k (some none) k' ≠ none
+      unfold upd; by_cases e : k' = k
+      · simp [e]
+      · simp only [e, if_false]
+        apply h.qr1 k'
+        simp only [List.mem_append, List.mem_singleton] at hk'
+        grind
+    · intro he k' hk'
+      have hk'' : upd s.cache k (some none) k' ≠ none := hk'
+      unfold upd at hk''
+      by_cases e : k' = k
+      · subst e; exact Or.inl (by simp)
+      · simp only [e, if_false] at hk''
+        have := h.qr2 he k' hk''
+        simp only [List.mem_append, List.mem_singleton]
+        grind
     · have := h.nodup
-      simp only [List.append_assoc, List.nodup_append, List.nodup_cons] at *
-      simp at *
+      simp only [List.append_assoc, List.nodup_append, List.nodup_cons, List.mem_append,
+        List.mem_singleton, List.mem_cons] at *
       grind
     · intro k' d hk'
       have : s.cache k' = some (some d) := by
@@ -148,7 +162,7 @@ theorem inv_fetchKey {parent : Key → Rd} {s : St} {r : Nat} (k : Key)
     · exact hbi
   next d hc =>
     -- already cached
-    refine ⟨?_, h.qr, h.nodup, h.vals, ?_, h.inflReq, hfr false, h.blkIdx⟩
+    refine ⟨?_, h.qr1, h.qr2, h.nodup, h.vals, ?_, h.inflReq, hfr false, h.blkIdx⟩
     · intro k'
       show s.cache k' ≠ none ↔ _
       unfold Declared; simp only []
@@ -167,7 +181,7 @@ theorem inv_fetchKey {parent : Key → Rd} {s : St} {r : Nat} (k : Key)
           · simp [hc] at hcj
   next hc =>
     -- being fetched
-    refine ⟨?_, h.qr, h.nodup, h.vals, ?_, h.inflReq, hfr true, hbi⟩
+    refine ⟨?_, h.qr1, h.qr2, h.nodup, h.vals, ?_, h.inflReq, hfr true, hbi⟩
     · intro k'
       show s.cache k' ≠ none ↔ _
       unfold Declared; simp only []
@@ -207,12 +221,13 @@ theorem inv_foldl_fetchKey {parent : Key → Rd} (r : Nat) (ks : List Key) :
 theorem inv_of_eq {parent : Key → Rd} {s s' : St} (h : Inv parent s)
     (h1 : s'.cache = s.cache) (h2 : s'.blocked = s.blocked) (h3 : s'.recs = s.recs)
     (h4 : s'.nrecs = s.nrecs) (h5 : s'.queue = s.queue) (h6 : s'.inflight = s.inflight)
-    (h7 : s'.requested = s.requested) : Inv parent s' := by
+    (h7 : s'.requested = s.requested) (h8 : s'.sending = s.sending)
+    (h9 : s'.err = none → s.err = none) : Inv parent s' := by
   cases s; cases s'
-  simp only at h1 h2 h3 h4 h5 h6 h7
-  subst h1 h2 h3 h4 h5 h6 h7
-  obtain ⟨a, b, c, d, e, f, g, i⟩ := h
-  exact ⟨a, b, c, d, e, f, g, i⟩
+  simp only at h1 h2 h3 h4 h5 h6 h7 h8 h9
+  subst h1 h2 h3 h4 h5 h6 h7 h8
+  obtain ⟨a, b1, b2, c, d, e, f, g, i⟩ := h
+  exact ⟨a, b1, fun he => b2 (h9 he), c, d, e, f, g, i⟩
 
 theorem inv_fetch {parent : Key → Rd} {s : St} (tx : TxId) (ks : List Key) (h : Inv parent s) :
     Inv parent (fetch s tx ks).1 := by
@@ -221,7 +236,7 @@ theorem inv_fetch {parent : Key → Rd} {s : St} (tx : TxId) (ks : List Key) (h 
   · exact h
   · have hn : s.recs s.nrecs = none := h.fresh _ (Nat.le_refl _)
     have h0 : Inv parent (newRec s) := by
-      obtain ⟨a, b, c, d, e, f, g, i⟩ := h
+      obtain ⟨a, b1, b2, c, d, e, f, g, i⟩ := h
       have hD : ∀ k, Declared (newRec s) k ↔ Declared s k := by
         intro k
         constructor
@@ -233,7 +248,7 @@ theorem inv_fetch {parent : Key → Rd} {s : St} (tx : TxId) (ks : List Key) (h 
         · rintro ⟨r, rc, h1, h2⟩
           have er : r ≠ s.nrecs := by rintro rfl; rw [hn] at h1; cases h1
           exact ⟨r, rc, by simp [newRec, upd, er, h1], h2⟩
-      refine ⟨?_, b, c, d, ?_, f, ?_, ?_⟩
+      refine ⟨?_, b1, b2, c, d, ?_, f, ?_, ?_⟩
       · intro k; rw [hD]; exact a k
       · intro r rc h1
         simp only [newRec, upd] at h1
@@ -257,7 +272,7 @@ theorem inv_fetch {parent : Key → Rd} {s : St} (tx : TxId) (ks : List Key) (h 
         simp only [newRec] at hx ⊢; omega
     have h1 := inv_foldl_fetchKey (parent := parent) s.nrecs ks h0
       ⟨{ blockers := 0, waiter := false, closed := false, keys := [] }, by simp [newRec, upd], rfl⟩
-    exact inv_of_eq h1 rfl rfl rfl rfl rfl rfl rfl
+    exact inv_of_eq h1 rfl rfl rfl rfl rfl rfl rfl rfl id
 
 theorem inv_take {parent : Key → Rd} {s s' : St} (h : Inv parent s) (ht : take s = some s') :
     Inv parent s' := by
@@ -267,15 +282,19 @@ theorem inv_take {parent : Key → Rd} {s s' : St} (h : Inv parent s) (ht : take
   next k q hq =>
     split at ht
     · cases ht
-      obtain ⟨a, b, c, d, e, f, g, i⟩ := h
-      refine ⟨a, ?_, ?_, d, e, ?_, g, i⟩
-      · intro k'
-        have := b k'
-        simp only [hq] at this
-        simp only [this, List.mem_cons, List.mem_append, List.mem_singleton]
+      obtain ⟨a, b1, b2, c, d, e, f, g, i⟩ := h
+      refine ⟨a, ?_, ?_, ?_, d, e, ?_, g, i⟩
+      · intro k' hk'
+        apply b1 k'
+        simp only [hq, List.mem_cons, List.mem_append, List.mem_singleton] at hk' ⊢
+        grind
+      · intro he k' hk'
+        have := b2 he k' hk'
+        simp only [hq, List.mem_cons, List.mem_append, List.mem_singleton] at this ⊢
         grind
       · simp only [hq] at c
-        simp only [List.nodup_append, List.nodup_cons, List.mem_cons, List.mem_append] at *
+        simp only [List.append_assoc, List.nodup_append, List.nodup_cons, List.mem_cons, List.mem_append,
+          List.mem_singleton] at *
         grind
       · intro k' hk'
         simp only [List.mem_append, List.mem_singleton] at hk' ⊢
@@ -385,7 +404,7 @@ theorem decrAll_spec (L : List (Key × Nat)) :
 
 theorem inv_setKey {parent : Key → Rd} {s : St} (k : Key) (d : Option Val) (h : Inv parent s)
     (hk : k ∈ s.requested) (hp : parent k = rdOf d) : Inv parent (setKey s k d) := by
-  have hck : s.cache k ≠ none := (h.qr k).2 (Or.inr hk)
+  have hck : s.cache k ≠ none := h.qr1 k (Or.inr (Or.inr hk))
   let L := s.blocked.filter (fun e => e.1 == k)
   have hpre : ∀ r rc, s.recs r = some rc → RecOk rc ∧ (cnt r L : Int) ≤ rc.blockers := by
     intro r rc hrc
@@ -411,9 +430,10 @@ theorem inv_setKey {parent : Key → Rd} {s : St} (k : Key) (d : Option Val) (h 
     intro k'
     simp only [setKey, upd]
     by_cases e : k' = k <;> simp [e, hck]
-  refine ⟨?_, ?_, h.nodup, ?_, ?_, h.inflReq, ?_, ?_⟩
+  refine ⟨?_, ?_, ?_, h.nodup, ?_, ?_, h.inflReq, ?_, ?_⟩
   · intro k'; rw [hcache, hD]; exact h.decl k'
-  · intro k'; rw [hcache]; exact h.qr k'
+  · intro k' hk'; rw [hcache]; exact h.qr1 k' hk'
+  · intro he k' hk'; rw [hcache] at hk'; exact h.qr2 he k' hk'
   · intro k' d' hk'
     simp only [setKey, upd] at hk'
     by_cases e : k' = k
@@ -453,40 +473,98 @@ theorem inv_complete {parent : Key → Rd} {s s' : St} (k : Key) (h : Inv parent
   next hin =>
     have hreq : k ∈ s.requested := h.inflReq k hin
     have h1 : Inv parent { s with inflight := s.inflight.erase k } := by
-      obtain ⟨a, b, c, d, e, f, g, i⟩ := h
-      exact ⟨a, b, c, d, e, fun j hj => f j (List.mem_of_mem_erase hj), g, i⟩
+      obtain ⟨a, b1, b2, c, d, e, f, g, i⟩ := h
+      exact ⟨a, b1, b2, c, d, e, fun j hj => f j (List.mem_of_mem_erase hj), g, i⟩
     split at hc
     next v hv => cases hc; exact inv_setKey k (some v) h1 hreq (by simp [hv, rdOf])
     next hv => cases hc; exact inv_setKey k none h1 hreq (by simp [hv, rdOf])
     next hv =>
       cases hc
-      refine inv_of_eq h1 ?_ ?_ ?_ ?_ ?_ ?_ ?_ <;> (simp only [handleErr]; split <;> rfl)
+      exact inv_of_eq h1 (by simp only [handleErr]; split <;> rfl) (by simp only [handleErr]; split <;> rfl)
+        (by simp only [handleErr]; split <;> rfl) (by simp only [handleErr]; split <;> rfl)
+        (by simp only [handleErr]; split <;> rfl) (by simp only [handleErr]; split <;> rfl)
+        (by simp only [handleErr]; split <;> rfl) (by simp only [handleErr]; split <;> rfl)
+        (by simp only [handleErr]; split <;> simp)
     next hv =>
       cases hc
-      refine inv_of_eq h1 ?_ ?_ ?_ ?_ ?_ ?_ ?_ <;> (simp only [handleErr]; split <;> rfl)
+      exact inv_of_eq h1 (by simp only [handleErr]; split <;> rfl) (by simp only [handleErr]; split <;> rfl)
+        (by simp only [handleErr]; split <;> rfl) (by simp only [handleErr]; split <;> rfl)
+        (by simp only [handleErr]; split <;> rfl) (by simp only [handleErr]; split <;> rfl)
+        (by simp only [handleErr]; split <;> rfl) (by simp only [handleErr]; split <;> rfl)
+        (by simp only [handleErr]; split <;> simp)
   · cases hc
+
+theorem inv_send {parent : Key → Rd} {s s' : St} (h : Inv parent s) (hs : send s = some s') :
+    Inv parent s' := by
+  unfold send at hs
+  split at hs
+  · cases hs
+  next k rest hq =>
+    split at hs
+    · cases hs
+      obtain ⟨a, b1, b2, c, d, e, f, g, i⟩ := h
+      refine ⟨a, ?_, ?_, ?_, d, e, f, g, i⟩
+      · intro k' hk'
+        apply b1 k'
+        simp only [hq, List.mem_cons, List.mem_append, List.mem_singleton] at hk' ⊢
+        grind
+      · intro he k' hk'
+        have := b2 he k' hk'
+        simp only [hq, List.mem_cons, List.mem_append, List.mem_singleton] at this ⊢
+        grind
+      · simp only [hq] at c
+        simp only [List.append_assoc, List.nodup_append, List.nodup_cons, List.mem_cons, List.mem_append,
+          List.mem_singleton] at *
+        grind
+    · cases hs
+
+theorem inv_abort {parent : Key → Rd} {s s' : St} (h : Inv parent s) (hs : abort s = some s') :
+    Inv parent s' := by
+  unfold abort at hs
+  split at hs
+  next hcond =>
+    cases hs
+    obtain ⟨a, b1, b2, c, d, e, f, g, i⟩ := h
+    refine ⟨a, ?_, ?_, ?_, d, e, f, g, i⟩
+    · intro k' hk'
+      apply b1 k'
+      simp only [List.not_mem_nil, false_or] at hk'
+      exact Or.inr hk'
+    · intro he
+      have := hcond.2
+      simp only [] at he
+      rw [he] at this; cases this
+    · simp only [List.nil_append]
+      exact (List.nodup_append.1 (by simpa [List.append_assoc] using c)).2.1
+  · cases hs
 
 theorem inv_step {parent : Key → Rd} {s s' : St} (h : Inv parent s) (st : Step parent s s') :
     Inv parent s' := by
   match st with
-  | .fetch _ tx ks _ => exact inv_fetch tx ks h
+  | .fetch _ tx ks _ _ => exact inv_fetch tx ks h
+  | .send _ _ hs => exact inv_send h hs
+  | .abort _ _ hs => exact inv_abort h hs
   | .take _ _ ht => exact inv_take h ht
   | .complete _ k _ hc => exact inv_complete k h hc
   | .exit _ _ he =>
     unfold exit at he; split at he
-    · cases he; exact inv_of_eq h rfl rfl rfl rfl rfl rfl rfl
+    · cases he; exact inv_of_eq h rfl rfl rfl rfl rfl rfl rfl rfl id
     · cases he
   | .stop _ =>
-    refine inv_of_eq h ?_ ?_ ?_ ?_ ?_ ?_ ?_ <;> (simp only [stop, handleErr]; split <;> rfl)
-  | .waitCall _ => exact inv_of_eq h rfl rfl rfl rfl rfl rfl rfl
+    exact inv_of_eq h (by simp only [stop, handleErr]; split <;> rfl) (by simp only [stop, handleErr]; split <;> rfl)
+      (by simp only [stop, handleErr]; split <;> rfl) (by simp only [stop, handleErr]; split <;> rfl)
+      (by simp only [stop, handleErr]; split <;> rfl) (by simp only [stop, handleErr]; split <;> rfl)
+      (by simp only [stop, handleErr]; split <;> rfl) (by simp only [stop, handleErr]; split <;> rfl)
+      (by simp only [stop, handleErr]; split <;> simp)
+  | .waitCall _ _ => exact inv_of_eq h rfl rfl rfl rfl rfl rfl rfl rfl id
   | .waitRet _ _ e hw =>
     unfold waitRet at hw; split at hw
-    · cases hw; exact inv_of_eq h rfl rfl rfl rfl rfl rfl rfl
+    · cases hw; exact inv_of_eq h rfl rfl rfl rfl rfl rfl rfl rfl id
     · cases hw
 
-theorem inv_reach {parent : Key → Rd} {c : Nat} {s : St} (h : Reach parent c s) : Inv parent s := by
+theorem inv_reach {parent : Key → Rd} {c cap : Nat} {s : St} (h : Reach parent c cap s) : Inv parent s := by
   induction h with
-  | init => exact inv_init parent c
+  | init => exact inv_init parent c cap
   | step s s' _ st ih => exact inv_step ih st
 
 end HyperModel.Fetcher
